@@ -14,11 +14,16 @@ import GdVerif.Run.Unreal2
 import GdVerif.Run.GenUnreal2
 import GdVerif.Run.Minecraft
 import GdVerif.Run.GenMinecraft
+import GdVerif.Run.Gs3
+import GdVerif.Run.Jc2m
+import GdVerif.Run.GenGs3
+import GdVerif.Run.GenJc2m
 /-
   gdmodel: the model behind a line protocol.
     gdmodel run        : reads `<id> <entry> <args…>` lines on stdin, prints `<id> <outcome>`
 -/
 open Gd Gd.Run
+
 
 
 
@@ -34,7 +39,9 @@ def allEntries : List (String × (List String → String)) := List.flatten [
   cliEntries,
   quakeEntries,
   unreal2Entries,
-  McDrv.minecraftEntries
+  McDrv.minecraftEntries,
+  gs3Entries,
+  jc2mEntries
   ]
 
 def runLine (line : String) : String :=
@@ -67,6 +74,8 @@ def main (args : List String) : IO UInt32 := do
         | "unreal2" => genUnreal2 seed n
         | "u2str" => genUnreal2Strings seed n
         | "mcjava" | "mcbedrock" | "mclegacy" | "mcauto" => McGen.genMinecraft suite seed n
+        | "gs3" => genGs3 seed n
+        | "jc2m" => genJc2m seed n
         | _ => []
       for l in lines do IO.println l
       return 0
